@@ -12,7 +12,7 @@
 -/
 namespace GilVerif.Geom
 
-structure View where
+@[ext] structure View where
   base : Int
   xs : Int
   ys : Int
